@@ -160,3 +160,39 @@ PROPS['C10']['rule'] = SERVER_RULE + (' PLUS the receive path (IPv4 -> UDP -> DH
     'truncation at every offset (IP/UDP lengths consistent), every hlen 0..255, option areas over {pad,end,53,1,61,4,200} exhaustively to length 4 (thorough 6), '
     'random bytes, random payloads, bit flips, length fields off by one, frames up to 4 KB; a panic is a violation with the frame as replay.')
 PROPS['C06']['tests'] = PROPS['C06']['tests'] + ['TestC09NoAlias']
+
+PROPS['C14'] = dict(
+    tests=['TestC14'],
+    monitor_tags={1410, 1411},
+    panic_is_violation=set(),
+    rule='replies built with the harness\'s own encoder and handed to the real catchReply (frames injected into the in-memory socket inside a '
+         'synctest bubble) for each of the four wait kinds (OFFER, selecting/renewing/rebinding ACK): the valid reply, every flavour of breaking '
+         'each of the 12 conditions (protocol, port, decodability in 9 ways, chaddr, xid, type incl. NAK, yiaddr, server id, routers, lease, '
+         'server = chosen, yiaddr = offered) and every pair of conditions; random structured replies (each condition broken with probability 1/10, '
+         'shuffled/duplicated/extra options, padding, IP header options, junk checksums, own hardware addresses of 0-16 bytes, no chosen server); '
+         'truncation of a valid reply at every offset, corrupted and random frames; sequences of 1-6 frames through one catchReply loop; the verify '
+         'functions called directly on all 256 subsets of the 8 message-level conditions per kind plus random option lists. The specification '
+         'conjunction (spec_accept / spec_nack) is evaluated on every frame as a monitor. Non-trivial = every case; distinct by full case line.',
+    trusted=['lib/client/verify/verifyer.go and catchReply of lib/client/dclient/netio.go are modelled by hand in coq/model/ClientRx.v over the decoders of C12/C13; '
+             'the tie is the differential run',
+             'in-memory receive socket (lib/rsocks/vnet_verif.go) instead of AF_PACKET; frames are at most 4096 bytes (the receive buffer of catchReply)',
+             'the remembered OFFER/ACK enters the verifier only through YourIP (never nil after Decode) and ServerIdentifier (nil or IPv4)'],
+    assumptions=['net.IP.Equal compares IPv4 addresses by value in 4- and 16-byte form; time.Duration arithmetic does not overflow for 32-bit second counts'],
+)
+
+PROPS['C16'] = dict(
+    tests=['TestC16Templates'],
+    monitor_tags={1610},
+    panic_is_violation={1601},
+    rule='msgtmpl.Discover / RequestSelecting / RequestRenewing / RequestRebinding called with random hardware addresses (length 6 mostly; every length '
+         '0..16, and 17..20 for the model only; all-0/all-ff bytes), leased and server addresses (random, 0, broadcast, .255; 4- and 16-byte net.IP forms); '
+         'the sender closure is invoked twice (same xid, fresh IP id); byte equality with the model (xid as returned by the constructor, IP id read '
+         'from the frame); the recogniser wellformed_for evaluated on the implementation\'s bytes as a monitor; hash/crc32.ChecksumIEEE against the '
+         'Gallina CRC-32 on random strings of 0-40 bytes. Non-trivial = every template case; distinct by full case line. '
+         'The retransmission-timing half of C16 is not covered by these tests.',
+    trusted=['lib/client/msgtmpl/{tmpl,request}.go and dhcpmsg.OptionClientIdentifier are modelled by hand in coq/model/Tmpl.v over the encoders of C12/C13; '
+             'the tie is the differential run',
+             'the IAID is computed by a bit-wise CRC-32 written in Gallina (tied to hash/crc32 by tag 1602); the theorems hold for every IAID below 2^32',
+             'requested address and server identifier passed to the templates are non-nil IPv4 addresses (the client passes the accepted YourIP / ServerIdentifier)'],
+    assumptions=['math/rand values (transaction id, IP identification) are arbitrary 32/16-bit numbers'],
+)
